@@ -277,6 +277,40 @@ def ob_append(a):
     return [res(name, PROVED, backend="native")]
 
 
+def ob_iadd_tuple(a):
+    """qc += (gate, qubits, param): exactly append(gate, qubits, param) - the entry (the SAME gate object, equal wires, the SAME parameter object)
+    is added at the end of gates (and of gates_computed unless the gate is a nop), nothing else changes, the tuple is not modified.
+    Real gate objects of every arity (append inspects nop-ness), opaque parameter token, every wire assignment over 3 qubits."""
+    name = "C14.iadd.post[applied-gate tuple form]"
+    from qlasskit.qcircuit import QCircuit, gates
+    n = 0
+    for G, ar in ((gates.X, 1), (gates.P, 1), (gates.CX, 2), (gates.CP, 2), (gates.Swap, 2), (gates.CCX, 3), (gates.Barrier, 0)):
+        for ws in itertools.permutations(range(3), ar):
+            for par in (Token("par"), None, 0.0):
+                qc = mk_circuit(3, [[0], [1]])
+                before, before_c = list(qc.gates), list(qc.gates_computed)
+                g = G()
+                wl = list(ws)
+                tup = (g, wl, par)
+                try:
+                    p_ = run_hooked(QCircuit.__iadd__, qc, tup)
+                except pyvc.Unsupported as ex:
+                    return [res(name, UNDECIDED, backend="pyvc", detail=str(ex))]
+                n += 1
+                ok = p_.kind == "return" and p_.value is qc and len(qc.gates) == len(before) + 1 and all(x is y for x, y in zip(qc.gates, before))
+                if ok:
+                    e = qc.gates[-1]
+                    ok = e[0] is g and list(e[1]) == list(ws) and e[2] is par and tup[0] is g and tup[1] == list(ws) and tup[2] is par
+                    nop = isinstance(g, gates.NopGate)
+                    ok = ok and (qc.gates_computed == before_c if nop else (qc.gates_computed[:-1] == before_c and qc.gates_computed[-1][0] is g
+                                                                            and list(qc.gates_computed[-1][1]) == list(ws) and qc.gates_computed[-1][2] is par))
+                if not ok:
+                    return [res(name, REFUTED, backend="pyvc-opaque", replayed=True,
+                                replay=dict(call=f"qc += ({G.__name__}(), {list(ws)}, {par!r})", observed_last_entry=repr(qc.gates[-1]) if p_.kind == "return" and qc.gates else f"raises {p_.value!r}",
+                                            expected=f"({G.__name__}, {list(ws)}, {par!r}) appended to gates and gates_computed"))]
+    return [res(name, PROVED, backend="pyvc-opaque", cases=n)]
+
+
 SELF_INVERSE = {"X", "Y", "Z", "H", "CX", "CZ", "CCX", "MCX", "Swap"}
 
 
@@ -525,7 +559,7 @@ def ob_repeat_loop(a):
     return [res(name, PROVED, backend="pyvc-opaque", cases=cases)]
 
 
-OBS = {"repeat_loop": ob_repeat_loop, "append_circuit_loop": ob_append_circuit_loop, "append_circuit": ob_append_circuit, "append_circuit_raises": ob_append_circuit_raises, "add": ob_add, "iadd": ob_iadd, "repeat": ob_repeat,
+OBS = {"repeat_loop": ob_repeat_loop, "append_circuit_loop": ob_append_circuit_loop, "append_circuit": ob_append_circuit, "append_circuit_raises": ob_append_circuit_raises, "add": ob_add, "iadd": ob_iadd, "iadd_tuple": ob_iadd_tuple, "repeat": ob_repeat,
        "copy": ob_copy, "append": ob_append, "remove_identities": ob_remove_identities, "qft": ob_qft}
 
 
@@ -575,6 +609,7 @@ def run(tier, only=None):
             jobs.append(("copy", (2, length, v)))
             jobs.append(("copy", (3, min(length, 2), v)))
     jobs.append(("append", None))
+    jobs.append(("iadd_tuple", None))
     for kind in ("self-inverse", "mixed"):
         jobs.append(("remove_identities", (5 if tier == "quick" else 6, kind)))
     for n in range(1, 9):
